@@ -77,6 +77,22 @@ class P:
 class C(P):
     z: int = 2
 ''',
+    # ONE configured decorator object applied to two unrelated classes, the other class being used first
+    "shared_decorator": '''
+configured = spec_class(%(kw)s)
+
+@configured
+class Other:
+    q: str = "q"
+    ws: List[str] = []
+
+@configured
+class C:
+    a: int = 1
+    b: List[int] = [1]
+
+Other()
+''',
     "inherit_collision": '''
 class P:
     a: int = 1
@@ -115,6 +131,7 @@ class C:
 ''',
 }
 KEYED = {"keyed_preparer"}
+SELF_DECORATED = {"shared_decorator"}  # the body writes its own decorators: %(kw)s is 'bootstrap=True' or empty
 PARENT_DECORATED = {"inherit_lazy_parent", "inherit_collision", "lazy_parent_with_new"}
 
 PRELUDE = '''
@@ -147,7 +164,9 @@ def make_classes(body, eager):
         kw.append("bootstrap=True")
     top = "@spec_class(" + ", ".join(kw) + ")" if kw else "@spec_class"
     src = BODIES[body].lstrip("\n")
-    if body in PARENT_DECORATED:
+    if body in SELF_DECORATED:
+        src = src % {"kw": "bootstrap=True" if eager else ""}
+    elif body in PARENT_DECORATED:
         src = top + "\n" + (src % {"deco": deco})
     else:
         src = top + "\n" + src
@@ -172,7 +191,7 @@ def describe_instance(inst):
 
 
 TRIGGERS = ["instantiate", "instantiate_kw", "spec_class_attr", "dataclass_fields", "dataclasses_fields", "subclass_instantiate", "subclass_meta",
-            "meta_then_helper", "fields_then_helper"]
+            "meta_then_helper", "fields_then_helper", "subclass_own_new_instantiate"]
 
 
 def trigger(ns, body, name):
@@ -193,6 +212,18 @@ def trigger(ns, body, name):
     if name == "subclass_instantiate":
         Sub = type("Sub", (C,), {})
         return ("inst", describe_instance(Sub(**_ctor_args(body))))
+    if name == "subclass_own_new_instantiate":
+        # the first use comes through a subclass with a cooperative __new__ of its own (which counts its calls): one
+        # instantiation is one call, whether or not the parent still had to be bootstrapped
+        calls = []
+
+        def __new__(cls, *args, **kwargs):
+            calls.append(1)
+            return super(Sub, cls).__new__(cls)
+
+        Sub = type("Sub", (C,), {"__new__": __new__})
+        inst = Sub(**_ctor_args(body))
+        return ("inst+new_calls", describe_instance(inst), len(calls))
     if name == "meta_then_helper":
         md = C.__spec_class__
         first = next(iter(md.attrs))
